@@ -5,6 +5,7 @@ C10.b no unbounded / partial arithmetic in the constant folders               (s
 C10.c no statically certain crash in reachable code: record keys, call arity, unbound names
 C10.d (informational) fixpoint drivers and their variants
 C10.e no while loop with an unchangeable condition
+C10.f the containing exception handlers cannot raise
 """
 import ast
 import builtins
